@@ -15,7 +15,7 @@ func Cipher(payload []byte, mask [4]byte, offset int) {
 	n := len(payload)
 	if n < 8 {
 		for i := 0; i < n; i++ {
-			payload[i] ^= mask[(offset+i)%4]
+			payload[i] ^= mask[(offset%4+i)%4]
 		}
 		return
 	}
